@@ -279,7 +279,7 @@ def load_edit_scenarios(ctx, out):
     from pyecore.resources.json import JsonResource
     rng = common.rng_for(ctx.seed, 'C11:load_edit')
     pack, Node, Leaf = _lte_metamodel(E)
-    n_models = 500 if ctx.tier != 'thorough' else 10000
+    n_models = 500 if ctx.tier != 'thorough' else 6000
     cov = {'loads': 0, 'edits': 0, 'resolutions': 0, 'moves_between_parents': 0, 'root_edits': 0,
            'documents_with_positional_refs': 0, 'abandoned': 0, 'by_format': {}}
     samples = []
@@ -514,7 +514,7 @@ def metamodel_edit_scenarios(ctx, out):
     from pyecore import ecore as E
     from pyecore.resources import ResourceSet, URI
     rng = common.rng_for(ctx.seed, 'C11:metamodel_edit')
-    n_cases = 110 if ctx.tier != 'thorough' else 2500
+    n_cases = 110 if ctx.tier != 'thorough' else 1500
     cov = {'metamodels': 0, 'loaded_from_ecore': 0, 'edits': 0, 'resolutions': 0, 'by_edit': {}, 'abandoned': 0,
            'names_reused': 0, 'two_root_states': 0, 'abandoned_on': []}
     samples = []
